@@ -3,3 +3,9 @@ From Gws Require Import Lib.Base Lib.Val Model.CloseCode.
 Local Open Scope N_scope.
 Definition check_c06local (c : val) : bool :=
   bytes_eqb (local_close_body (vn (vget 0 c)) (vb (vget 1 c))) (vb (vget 2 c)).
+
+(* closes caused by a transport read error: case = VL [reading; status the statement expects; error text; wire_body] *)
+Definition check_c06err (c : val) : bool :=
+  let reading := negb (vn (vget 0 c) =? 0) in
+  bytes_eqb (error_close_body reading EOther (vb (vget 2 c))) (vb (vget 3 c))
+  && (emit_error_status reading EOther =? vn (vget 1 c)).
